@@ -455,7 +455,7 @@ func monC11(c *child.Ctx, replay json.RawMessage) {
 		runBatch(k.App, cases)
 		return
 	}
-	n := c.Share(c.Pick(400, 10000))
+	n := c.Share(c.Pick(800, 16000))
 	for _, app := range []string{"displayrtcm3", "rtcmfilter"} {
 		var cases []appCase
 		for i := 0; i < n/2; i++ {
@@ -632,7 +632,7 @@ func monC10(c *child.Ctx, replay json.RawMessage) {
 		}
 		return
 	}
-	n := c.Share(c.Pick(300, 10000))
+	n := c.Share(c.Pick(600, 16000))
 	var cases []appCase
 	for i := 0; i < n; i++ {
 		in := appInput(r, i)
